@@ -47,17 +47,18 @@ class PreparedConditionCallable:
         if not source_data:
             return self.args, self.kwargs
 
-        resolved_args = []
-        for arg in self.args:
+        def resolve(arg):
+            # data paths may also be nested within list/mapping arguments
             if isinstance(arg, valida.datapath.DataPath):
-                arg = arg.get_data(source_data, return_paths=False)
-            resolved_args.append(arg)
+                return arg.get_data(source_data, return_paths=False)
+            elif isinstance(arg, (list, tuple)):
+                return type(arg)(resolve(i) for i in arg)
+            elif isinstance(arg, dict):
+                return {k: resolve(v) for k, v in arg.items()}
+            return arg
 
-        resolved_kwargs = {}
-        for k, v in self.kwargs.items():
-            if isinstance(v, valida.datapath.DataPath):
-                v = v.get_data(source_data, return_paths=False)
-            resolved_kwargs[k] = v
+        resolved_args = [resolve(arg) for arg in self.args]
+        resolved_kwargs = {k: resolve(v) for k, v in self.kwargs.items()}
 
         return tuple(resolved_args), resolved_kwargs
 
